@@ -335,7 +335,106 @@ pub fn key_sweep<S: Sch>(rec: &mut Rec) {
     }
 }
 
+
+/// Size sweep: parameters, committer key and verifier key of LARGE configurations (element counts around and above
+/// 128 / 256, not multiples of 64) round-trip in all four modes - sizes at which an implementation may switch to a
+/// chunked or parallel (de)serializer.  No prefix sweep here (the boundary sweep runs on the small configurations).
+pub fn size_sweep<S: Sch>(rec: &mut Rec) {
+    let mut cfgs: Vec<KeyCfg> = Vec::new();
+    match S::FAM {
+        Fam::Uni => {
+            if S::NAME == "IPA" {
+                for d in [127usize, 255] {
+                    cfgs.push(KeyCfg::uni(d, d, 1, None));
+                }
+            } else if S::BOUNDS {
+                for d in [127usize, 128, 149, 200, 255, 300] {
+                    cfgs.push(KeyCfg::uni(d, d - 3, 2, Some(vec![d / 2])));
+                }
+            } else {
+                return;
+            }
+        }
+        Fam::Ml => {
+            if S::NAME == "HYR" {
+                for nv in [14usize, 16] {
+                    cfgs.push(KeyCfg::ml(nv));
+                }
+            } else {
+                return;
+            }
+        }
+        Fam::Mv => {
+            for (nv, d) in [(2usize, 15usize), (2, 20), (3, 9), (4, 6)] {
+                cfgs.push(KeyCfg::mv(nv, d, d - 1));
+            }
+        }
+    }
+    for cfg in cfgs {
+        let id = format!("{}/keys-large/{}", S::NAME, cfg.id());
+        if !rec.take(&id) {
+            continue;
+        }
+        rec.dim("scheme", S::NAME);
+        let keys = match build_keys::<S>(&cfg, rec.seed) {
+            Ok(k) => k,
+            Err(_) => continue,
+        };
+        SKIP_PREFIXES.store(true, std::sync::atomic::Ordering::Relaxed);
+        let pps = roundtrip(rec, S::NAME, "params", &id, &keys.pp, false);
+        let _ = roundtrip(rec, S::NAME, "committer-key", &id, &keys.ck, false);
+        let _ = roundtrip(rec, S::NAME, "verifier-key", &id, &keys.vk, false);
+        SKIP_PREFIXES.store(false, std::sync::atomic::Ordering::Relaxed);
+        // keys trimmed from the deserialized parameters are the keys trimmed from the originals
+        for (m, pp2) in pps.iter().enumerate() {
+            if let Some(pp2) = pp2 {
+                rec.count_points(1);
+                rec.op(1);
+                match S::trim(pp2, &cfg) {
+                    Ok((ck2, vk2)) => {
+                        let same = ser(&ck2) == ser(&keys.ck) && ser(&vk2) == ser(&keys.vk);
+                        rec.class(if same { "decisions-equal" } else { "decisions-differ" });
+                        if !same {
+                            viol(rec, S::NAME, "params", "trimmed-keys-differ", &id, format!("{}: keys trimmed from the deserialized parameters differ from the keys trimmed from the originals", MODES[m].2));
+                        }
+                    }
+                    Err(o) => viol(rec, S::NAME, "params", "trim-fails-after-roundtrip", &id, format!("{}: trimming the deserialized parameters to the original configuration fails: {}", MODES[m].2, o.short())),
+                }
+            }
+        }
+    }
+}
+
 pub fn special(rec: &mut Rec) {
+    // large parameter sets of the special APIs (cf. size_sweep)
+    for d in [149usize, 200] {
+        let id = format!("KZG/ser-large/D={}", d);
+        if rec.take(&id) {
+            rec.dim("scheme", "KZG");
+            let pp = kzg_setup(d, true, rec.seed, 0);
+            SKIP_PREFIXES.store(true, std::sync::atomic::Ordering::Relaxed);
+            let _ = roundtrip(rec, "KZG", "params", &id, &pp, false);
+            SKIP_PREFIXES.store(false, std::sync::atomic::Ordering::Relaxed);
+        }
+    }
+    for nv in [7usize, 8] {
+        let id = format!("MLP/ser-large/nv={}", nv);
+        if rec.take(&id) {
+            rec.dim("scheme", "MLP");
+            let mut rng = seed_rng(rec.seed, 10);
+            if let Ok((pp, ck, vk)) = catch(|| {
+                let pp = Mlp::setup(nv, &mut rng);
+                let (ck, vk) = Mlp::trim(&pp, nv - 1);
+                (pp, ck, vk)
+            }) {
+                SKIP_PREFIXES.store(true, std::sync::atomic::Ordering::Relaxed);
+                let _ = roundtrip(rec, "MLP", "params", &id, &pp, false);
+                let _ = roundtrip(rec, "MLP", "committer-key", &id, &ck, false);
+                let _ = roundtrip(rec, "MLP", "verifier-key", &id, &vk, false);
+                SKIP_PREFIXES.store(false, std::sync::atomic::Ordering::Relaxed);
+            }
+        }
+    }
     let id = "KZG/ser".to_string();
     if rec.take(&id) {
         rec.dim("scheme", "KZG");
@@ -407,6 +506,7 @@ pub fn run(rec: &mut Rec) {
     crate::for_each_scheme!(S, {
         scheme::<S>(rec, full);
         key_sweep::<S>(rec);
+        size_sweep::<S>(rec);
     });
     special(rec);
 }
